@@ -376,15 +376,15 @@ def _calculate_transition_events(
         # Indices when atom jumps in or out of site
         (i,) = np.nonzero((atom_site != np.roll(atom_site, shift=-1)))
 
-        # continue if atom does not jump
-        if len(i) < 1:
-            continue
-
         # Indices when atom jumps in or out of inner site
         (i2,) = np.nonzero((atom_inner_site != np.roll(atom_inner_site, shift=-1)))
 
+        # continue if atom does not jump
+        if len(i) < 1 and len(i2) < 1:
+            continue
+
         # Drop last event if it is on the last timestep (side effect of np.roll)
-        if i[-1] == len(atom_site) - 1:
+        if len(i) > 0 and i[-1] == len(atom_site) - 1:
             i = i[:-1]
         if len(i2) > 0 and i2[-1] == len(atom_inner_site) - 1:
             i2 = i2[:-1]
